@@ -676,7 +676,14 @@ def h_modpushpop(case):
     return {'out': out}
 
 
+def h_dropzeros(case):
+    """BaseIpParser.drop_leading_zeros on a list of strings (advisory binding of DropZeros.tla)"""
+    from recognizers_sequence.sequence.parsers import BaseIpParser
+    return {'out': [BaseIpParser.drop_leading_zeros(t) for t in case['texts']]}
+
+
 _HANDLERS = {
+    'dropzeros': h_dropzeros,
     'modpushpop': h_modpushpop,
     'cjkint': h_cjkint,
     'digitalvalue': h_digitalvalue,
